@@ -20,7 +20,7 @@ from . import ex, flow, typestate
 LOCK, UNLOCK, TRYLOCK = "pthread_mutex_lock", "pthread_mutex_unlock", "pthread_mutex_trylock"
 
 
-def mutex_id(f, arg):
+def mutex_id(f, arg, depth=0):
     """'record.field' (or global name) of the mutex whose address is passed."""
     j = ex.skip(f, arg)
     e = f.exprs[j]
@@ -33,8 +33,32 @@ def mutex_id(f, arg):
     if e["k"] == "mem":
         return "%s.%s" % (e.get("in"), e["member"])
     if e["k"] == "ref":
+        if e.get("dk") == "local" and depth < 3:
+            # `pthread_mutex_t *m = &dev->queue_mutex; lock (m); ... unlock (m);`: a local with a single definition
+            d = _single_def(f, e["name"])
+            if d is not None:
+                return mutex_id(f, d, depth + 1)
         return e["name"]
     return ex.pretty(f, j)
+
+
+def _single_def(f, name):
+    c = f._cache.setdefault("lock_single_def", {})
+    if name not in c:
+        from . import flow
+        defs = []
+        for bid, i in flow.all_events(f):
+            for lhs, var, op, rhs in flow.stores(f, i):
+                who = var["name"] if var is not None else None
+                if who is None and lhs is not None:
+                    le = f.exprs[ex.skip(f, lhs)]
+                    who = le.get("name") if le["k"] == "ref" and le.get("dk") == "local" else None
+                if who == name and (rhs is not None or var is None):
+                    defs.append((op, rhs))
+        taken = any(x["k"] == "un" and x["op"] == "&" and f.exprs[ex.skip(f, x["c"][0])]["k"] == "ref"
+                    and f.exprs[ex.skip(f, x["c"][0])].get("name") == name for x in f.exprs)
+        c[name] = defs[0][1] if (len(defs) == 1 and defs[0][0] == "=" and defs[0][1] is not None and not taken) else None
+    return c[name]
 
 
 class LockSpec:
